@@ -109,7 +109,7 @@ package light
 // updateTrustedLightBlock in verifyLightBlock (induction over the client's history, not machine checked).
 //@ extern store.Store.LightBlock
 //@   assigns nothing
-//@   ensures ok: result1 == nil ==> (lbOK(result0) && reach(types.Header.Hash(result0.SignedHeader.Header)))
+//@   ensures ok: result1 == nil ==> (lbOK(result0) && reach(types.Header.Hash(result0.SignedHeader.Header)) && result0.SignedHeader.Header.Height == arg0)
 //@ extern store.Store.LightBlockBefore
 //@   assigns nothing
 //@   ensures ok: result1 == nil ==> (lbOK(result0) && reach(types.Header.Hash(result0.SignedHeader.Header)) && result0.SignedHeader.Header.Height < arg0)
@@ -181,10 +181,11 @@ package light
 // ---------------------------------------------------------------------------------------------------------------
 // Reaching the target
 
+// ASSUMED additionally: providers answer for the height that was asked (the http provider checks it).
 //@ func Client.lightBlockFromPrimary
 //@   trusted
 //@   assigns c.primary, c.witnesses, elems(provider.Provider), c.providerMutex
-//@   ensures ok: result1 == nil ==> lbOK(result0)
+//@   ensures ok: result1 == nil ==> (lbOK(result0) && (height != 0 ==> result0.SignedHeader.Header.Height == height))
 //@ func Client.findNewPrimary
 //@   trusted
 //@   assigns c.primary, c.witnesses, elems(provider.Provider), c.providerMutex
@@ -246,29 +247,26 @@ package light
 //@   requires latest: c.latestTrustedBlock != nil && clientOK(c)
 //@   requires ok: lbOK(newLightBlock)
 //@   assigns c.latestTrustedBlock, c.primary, c.witnesses, elems(provider.Provider), c.providerMutex, reports, all(types.ValidatorSet.totalVotingPower)
-//@   ensures inv: clientOK(c)
-//@   ensures reached: result == nil ==> reach(types.Header.Hash(newLightBlock.SignedHeader.Header))
+//@   ensures inv: c.latestTrustedBlock != nil && clientOK(c)
+//@   ensures reached: result == nil ==> (lbOK(newLightBlock) && reach(types.Header.Hash(newLightBlock.SignedHeader.Header)))
 //@   atcall Client.updateTrustedLightBlock reached: reach(types.Header.Hash(arg1.SignedHeader.Header))
 
 //@ func Client.updateTrustedLightBlock
 //@   requires inv: clientOK(c)
 //@   requires new: lbOK(l) && reach(types.Header.Hash(l.SignedHeader.Header))
 //@   assigns c.latestTrustedBlock
-//@   ensures inv: clientOK(c)
+//@   ensures inv: clientOK(c) && (result == nil ==> c.latestTrustedBlock != nil) && (old(c.latestTrustedBlock) != nil ==> c.latestTrustedBlock != nil)
 
 //@ func Client.TrustedLightBlock
 //@   assigns c.providerMutex
-//@   ensures ok: result1 == nil ==> (lbOK(result0) && reach(types.Header.Hash(result0.SignedHeader.Header)))
+//@   ensures ok: result1 == nil ==> (lbOK(result0) && reach(types.Header.Hash(result0.SignedHeader.Header)) && (height > 0 ==> result0.SignedHeader.Header.Height == height))
 
 // API level: a block returned without error is a reached block.
 //@ func Client.VerifyLightBlockAtHeight
-//@   requires errs: ErrLightClientAttack != nil && ErrNoWitnesses != nil && ErrFailedHeaderCrossReferencing != nil
-//@   requires latest: c.latestTrustedBlock != nil && clientOK(c)
-//@   ensures inv: clientOK(c)
-//@   ensures reached: result1 == nil ==> reach(types.Header.Hash(result0.SignedHeader.Header))
+//@   maintains latest: c.latestTrustedBlock != nil && clientOK(c)
+//@   ensures reached: result1 == nil ==> (lbOK(result0) && reach(types.Header.Hash(result0.SignedHeader.Header)))
+//@   ensures asked: result1 == nil ==> result0.SignedHeader.Header.Height == height
 
 //@ func Client.VerifyHeader
-//@   requires errs: ErrLightClientAttack != nil && ErrNoWitnesses != nil && ErrFailedHeaderCrossReferencing != nil
-//@   requires latest: c.latestTrustedBlock != nil && clientOK(c)
-//@   ensures inv: clientOK(c)
+//@   maintains latest: c.latestTrustedBlock != nil && clientOK(c)
 //@   ensures reached: result == nil ==> reach(types.Header.Hash(newHeader))
